@@ -4,11 +4,11 @@
 package main
 
 import (
-	"strconv"
 	"fmt"
 	"net/url"
 	"reflect"
 	"sort"
+	"strconv"
 	"strings"
 
 	"gitee.com/xuesongtao/protoc-go-valid/valid"
@@ -227,7 +227,7 @@ func run(c *runner.Ctx) {
 		}
 	}
 	pairMenu := []string{"required", "to=1~3", "gt=2", "eq=2", "in=(a/1/中)", "phone", "int", "re='^a+$'", "date", "prefix=a", "unique", "json"}
-	if c.Thorough() {
+	if true { // the larger pair menu on both tiers
 		pairMenu = append(pairMenu, "le=1", "noeq=1", "include=(a)", "email", "ip", "float", "ints", "suffix=1", "datetime", "oto=0~4")
 	}
 	for i, a := range pairMenu {
